@@ -122,15 +122,31 @@ func genScenario(t *rapid.T) scenario {
 			"svc.example.com;proto=https,for=6.6.6.6",
 			// (a port is part of the host as received, also the one which is the default of some scheme)
 			"svc.example.com:443", "svc.example.com:80", "public.example.com:8443"}).Draw(t, "host"),
-		Path:   rapid.SampledFrom([]string{"/public/x", "/public/y/z", "/other"}).Draw(t, "path"),
-		Entry:  rapid.SampledFrom([]vkit.Entry{vkit.EntryDecision, vkit.EntryProxy}).Draw(t, "entry"),
-		Query:  rapid.SampledFrom([]string{"", "", "own=1"}).Draw(t, "query"),
+		Path:  rapid.SampledFrom([]string{"/public/x", "/public/y/z", "/other"}).Draw(t, "path"),
+		Entry: rapid.SampledFrom([]vkit.Entry{vkit.EntryDecision, vkit.EntryProxy}).Draw(t, "entry"),
+		Query: rapid.SampledFrom([]string{"", "", "own=1"}).Draw(t, "query"),
 	}
 
-	switch rapid.IntRange(0, 5).Draw(t, "trustedKind") {
+	switch rapid.IntRange(0, 6).Draw(t, "trustedKind") {
 	case 0:
 	case 1:
 		s.Trusted = &[]string{}
+	case 6:
+		// entries which contain each other, in either order: a peer is trusted as soon as one of them names it
+		nested := rapid.SampledFrom([][3]string{{"10.1.0.0/24", "10.1.0.0/16", "10.1.9.9"}, {"10.1.0.0", "10.1.0.0/16", "10.1.9.9"}, {"10.1.2.3", "10.1.2.3/8", "10.1.9.9"},
+			{"2001:db8::/64", "2001:db8::/32", "2001:db8:1::5"}, {"2001:db8::", "2001:db8::/32", "2001:db8:1::5"}, {"192.0.2.0/28", "192.0.2.0/24", "192.0.2.10"},
+			{"192.0.2.0/30", "0.0.0.0/0", "192.0.2.10"}}).Draw(t, "nestedEntries")
+		l := []string{nested[0], nested[1]}
+
+		if rapid.Bool().Draw(t, "widerFirst") {
+			l = []string{nested[1], nested[0]}
+		}
+
+		if rapid.IntRange(0, 3).Draw(t, "peerOfTheWiderOnly") != 0 {
+			s.Peer = nested[2]
+		}
+
+		s.Trusted = &l
 	default:
 		l := rapid.SliceOfN(rapid.SampledFrom(entries), 1, 3).Draw(t, "trusted")
 		if rapid.IntRange(0, 9).Draw(t, "includePeer") < 4 && net.ParseIP(s.Peer) != nil {
